@@ -164,6 +164,27 @@ def run(ctx):
         forms = sorted({" ".join(x) for s in T.root_streams() for x in tpl.expand_alts(T.render(s))})
         ok = forms == sorted(["⟨proc_macro2::Ident⟩ = __errors . handle ( ⟨syn::path::Path⟩ ( __fwd_attrs ) ) ;", "⟨proc_macro2::Ident⟩ = :: darling :: export :: Some ( __fwd_attrs ) ;"])
         ctx.ob("C08.H.forward-populator", f.key, "attrs = Some(__fwd_attrs) | handle(with(__fwd_attrs))", ok, txt)
+    # a failing value of a `multiple` field is located `name[i]` with i = how many values the field has
+    # collected so far over *all* attributes (the length of its cross-attribute slot), so that the way
+    # the items are split over attributes does not show in the error
+    f = ctx.fn(common.TOK % "field::MatchArm<'_>")
+    if f:
+        T = tpl.Templates(f)
+        forms = [" ".join(x) for s in T.root_streams() for x in tpl.expand_alts(T.render(s))]
+        # (the indexed location goes with the arm that pushes: both are chosen by `field.multiple`)
+        multi = [x for x in forms if '"{}[{}]"' in x and ". push ( __val )" in x]
+        IDX = r'format ! \( "\{\}\[\{\}\]" , ⟨str⟩ , (\S+(?: \. len \( \))?) \)'
+        ok = bool(multi)
+        for x in multi:
+            m_ = re.search(IDX, x)
+            if not m_:
+                ok = False
+                continue
+            idx = m_.group(1)
+            if idx == "⟨proc_macro2::Ident⟩ . len ( )":
+                continue
+            ok = ok and re.search(r"let %s = ⟨proc_macro2::Ident⟩ \. len \( \) ;" % re.escape(idx), x) is not None
+        ctx.ob("C08.H.multiple-index-counts-across-attributes", f.key, "name[i] with i = slot.len()", ok, "%s" % [x[:260] for x in multi][:2])
     # the buffers that live across attributes (__flatten, __fwd_attrs) are only ever pushed to by the per-list / per-attribute code
     common.buffers_only_pushed(ctx, "C08.H.cross-attribute-buffers-only-pushed")
     # ------------------------------------------------------------ parse_attribute_to_meta_list
